@@ -183,7 +183,7 @@ func c04Check(c *Ctx, spec *gen.TableSpec, aligns []int, decos []namedDeco, st *
 }
 
 func c04Random(c *Ctx, i int, r *gen.R) {
-	spec := r.Table(gen.TableOpts{MaxCols: 5, MaxRows: 6, ZeroHeaderOK: true, MinCols: 1, Item: c04Item, Noise: gen.NoiseSkipable | gen.NoiseCallbacks | gen.NoiseAlignElsewhere})
+	spec := r.Table(gen.TableOpts{MaxCols: 5, MaxRows: 6, ZeroHeaderOK: true, MinCols: 1, Item: c04Item, Noise: gen.NoiseSkipable | gen.NoiseCallbacks | gen.NoiseFailingCallbacks | gen.NoiseAlignElsewhere})
 	aligns := make([]int, spec.NCols()+1)
 	if r.Chance(4, 5) {
 		for k := range aligns {
